@@ -466,6 +466,50 @@ mut("stream_group_raw_pointer_marker", ["C18"],
      ("src/stream/stream_group.rs", "            capacity,\n        }", "            capacity,\n            _marker: core::marker::PhantomData,\n        }")],
     "a raw-pointer marker in StreamGroup: neither Send nor Sync")
 
+# ---------------------------------------------------------------- true thread races
+# These only misbehave when a wake-up from another thread lands *between two
+# steps inside the library*; no interleaving of whole wake() calls and whole
+# child polls exposes them. Only the storm mode (helper threads) can.
+WAKE_VEC_OLD = """        let mut readiness = self.readiness.lock().unwrap();
+        if !readiness.set_ready(self.id) {
+            readiness
+                .parent_waker()
+                .expect("`parent_waker` not available from `Readiness`. Did you forget to call `Readiness::set_waker`?")
+                .wake_by_ref()
+        }
+"""
+WAKE_VEC_TWO_PHASE = """        // take the task waker first, so that the lock is not held while waking
+        let parent = self.readiness.lock().unwrap().parent_waker().cloned();
+        let was_ready = self.readiness.lock().unwrap().set_ready(self.id);
+        if !was_ready {
+            parent
+                .expect("`parent_waker` not available from `Readiness`. Did you forget to call `Readiness::set_waker`?")
+                .wake_by_ref()
+        }
+"""
+mut("race_inline_waker_vec_two_phase", ["C01"],
+    [("src/utils/wakers/vec/waker.rs", WAKE_VEC_OLD, WAKE_VEC_TWO_PHASE)],
+    "THREAD RACE: InlineWakerVec::wake reads the task waker in one critical section and sets the bit in a second one; a poll with a fresh task waker in between leaves the wake-up with the stale task")
+
+JOIN_ARR_HEAD_OLD = """        let mut readiness = this.wakers.readiness();
+        readiness.set_waker(cx.waker());
+        if *this.pending != 0 && !readiness.any_ready() {
+            // Nothing is ready yet
+            return Poll::Pending;
+        }
+"""
+JOIN_ARR_HEAD_RACY = """        if *this.pending != 0 && !this.wakers.readiness().any_ready() {
+            // Nothing is ready yet: only remember whom to wake
+            this.wakers.readiness().set_waker(cx.waker());
+            return Poll::Pending;
+        }
+        let mut readiness = this.wakers.readiness();
+        readiness.set_waker(cx.waker());
+"""
+mut("race_join_array_check_then_register", ["C01"],
+    [("src/future/join/array.rs", JOIN_ARR_HEAD_OLD, JOIN_ARR_HEAD_RACY)],
+    "THREAD RACE: array join tests 'nothing ready' in one critical section and registers the new task waker in a second one; a wake-up in between goes to the previous task waker")
+
 
 def sh(cmd, **kw):
     return subprocess.run(cmd, stdout=subprocess.PIPE, stderr=subprocess.STDOUT, text=True, **kw)
